@@ -1,7 +1,217 @@
-//! Model verbs (parse / dump / write / edit histories).
-use crate::verbs::Ctx;
+//! Model verbs (parse / dump / write / edit histories on live handles).
+//!
+//! Binary dump format (little-endian), see vlib/fmt/mdl.py `parse_dump`:
+//!   "MDLD" u32 nlods { u32 nparts { u16 material_index, u16 0, u32 nverts, nverts x 92-byte vertex,
+//!   u32 nindices, nindices x u16, u32 nsub { u32 index_count, u32 index_offset }, u32 nshapes { str name,
+//!   u32 nmorph, nmorph x 3 f32 }, u32 nstreams { u32 stride, u32 len, bytes } } }
+//!   u32 nbones { str } u32 nmaterials { str }        (str = u32 len + bytes)
+//! vertex = position[3] uv0[2] uv1[2] normal[3] bitangent[4] color[4] bone_weight[4] (22 f32) + bone_id[4 u8]
+use crate::json::J;
+use crate::obj;
+use crate::verbs::{h, Ctx, Obj};
 use crate::Out;
+use physis::model::{NewShapeValue, Vertex, MDL};
 
-pub fn dispatch(_ctx: &mut Ctx, _verb: &str, _a: &[String]) -> Option<Out> {
-    None
+fn put_u32(o: &mut Vec<u8>, v: u32) {
+    o.extend_from_slice(&v.to_le_bytes());
+}
+fn put_str(o: &mut Vec<u8>, s: &str) {
+    put_u32(o, s.len() as u32);
+    o.extend_from_slice(s.as_bytes());
+}
+fn put_vertex(o: &mut Vec<u8>, v: &Vertex) {
+    for x in v.position.iter().chain(v.uv0.iter()).chain(v.uv1.iter()).chain(v.normal.iter()).chain(v.bitangent.iter()).chain(v.color.iter()).chain(v.bone_weight.iter()) {
+        o.extend_from_slice(&x.to_bits().to_le_bytes());
+    }
+    o.extend_from_slice(&v.bone_id);
+}
+
+pub fn dump(m: &MDL) -> Vec<u8> {
+    let mut o = Vec::new();
+    o.extend_from_slice(b"MDLD");
+    put_u32(&mut o, m.lods.len() as u32);
+    for lod in &m.lods {
+        put_u32(&mut o, lod.parts.len() as u32);
+        for p in &lod.parts {
+            o.extend_from_slice(&p.material_index.to_le_bytes());
+            o.extend_from_slice(&0u16.to_le_bytes());
+            put_u32(&mut o, p.vertices.len() as u32);
+            for v in &p.vertices {
+                put_vertex(&mut o, v);
+            }
+            put_u32(&mut o, p.indices.len() as u32);
+            for i in &p.indices {
+                o.extend_from_slice(&i.to_le_bytes());
+            }
+            put_u32(&mut o, p.submeshes.len() as u32);
+            for s in &p.submeshes {
+                put_u32(&mut o, s.index_count);
+                put_u32(&mut o, s.index_offset);
+            }
+            put_u32(&mut o, p.shapes.len() as u32);
+            for s in &p.shapes {
+                put_str(&mut o, &s.name);
+                put_u32(&mut o, s.morphed_vertices.len() as u32);
+                for v in &s.morphed_vertices {
+                    for x in v.position.iter() {
+                        o.extend_from_slice(&x.to_bits().to_le_bytes());
+                    }
+                }
+            }
+            put_u32(&mut o, p.vertex_streams.len() as u32);
+            for (i, s) in p.vertex_streams.iter().enumerate() {
+                put_u32(&mut o, *p.vertex_stream_strides.get(i).unwrap_or(&0) as u32);
+                put_u32(&mut o, s.len() as u32);
+                o.extend_from_slice(s);
+            }
+        }
+    }
+    put_u32(&mut o, m.affected_bone_names.len() as u32);
+    for s in &m.affected_bone_names {
+        put_str(&mut o, s);
+    }
+    put_u32(&mut o, m.material_names.len() as u32);
+    for s in &m.material_names {
+        put_str(&mut o, s);
+    }
+    o
+}
+
+fn read_vertices(buf: &[u8]) -> Vec<Vertex> {
+    let mut out = vec![];
+    for rec in buf.chunks_exact(92) {
+        let f = |i: usize| f32::from_bits(u32::from_le_bytes(rec[4 * i..4 * i + 4].try_into().unwrap()));
+        out.push(Vertex {
+            position: [f(0), f(1), f(2)],
+            uv0: [f(3), f(4)],
+            uv1: [f(5), f(6)],
+            normal: [f(7), f(8), f(9)],
+            bitangent: [f(10), f(11), f(12), f(13)],
+            color: [f(14), f(15), f(16), f(17)],
+            bone_weight: [f(18), f(19), f(20), f(21)],
+            bone_id: [rec[88], rec[89], rec[90], rec[91]],
+        });
+    }
+    out
+}
+
+fn summary(m: &MDL) -> J {
+    J::Arr(
+        m.lods
+            .iter()
+            .map(|l| J::Arr(l.parts.iter().map(|p| obj! {"vertices" => p.vertices.len(), "indices" => p.indices.len(), "submeshes" => p.submeshes.len(), "shapes" => p.shapes.len(), "streams" => p.vertex_streams.len()}).collect()))
+            .collect(),
+    )
+}
+
+macro_rules! mdl {
+    ($ctx:expr, $a:expr) => {
+        match h($a).and_then(|k| $ctx.handles.get_mut(&k)) {
+            Some(Obj::Mdl(x)) => x,
+            _ => return Some(Out::usage("bad mdl handle")),
+        }
+    };
+}
+
+pub fn dispatch(ctx: &mut Ctx, verb: &str, a: &[String]) -> Option<Out> {
+    Some(match verb {
+        "mdl.parse" => {
+            // mdl.parse <file> <dump|-> [keep]
+            if a.len() < 2 { return Some(Out::usage("args")); }
+            let Some(buf) = ctx.load(&a[0]) else { return Some(Out::usage("input")) };
+            match MDL::from_existing(&buf) {
+                Some(m) => {
+                    ctx.done();
+                    if a[1] != "-" {
+                        let d = dump(&m);
+                        if std::fs::write(&a[1], &d).is_err() { return Some(Out::usage("output")); }
+                    }
+                    let s = summary(&m);
+                    if a.len() > 2 {
+                        let hd = ctx.put(Obj::Mdl(m));
+                        Out::ok(obj! {"handle" => hd, "lods" => s})
+                    } else {
+                        Out::ok(obj! {"lods" => s})
+                    }
+                }
+                None => Out::none(),
+            }
+        }
+        "mdl.dump" => {
+            if a.len() < 2 { return Some(Out::usage("args")); }
+            let m = mdl!(ctx, &a[0]);
+            let d = dump(m);
+            if std::fs::write(&a[1], &d).is_err() { return Some(Out::usage("output")); }
+            Out::ok(summary(m))
+        }
+        "mdl.write" => {
+            if a.len() < 2 { return Some(Out::usage("args")); }
+            let m = mdl!(ctx, &a[0]);
+            let r = m.write_to_buffer();
+            ctx.done();
+            crate::verbs::bytes_out(r, &a[1])
+        }
+        "mdl.eq" => {
+            // model_data equality through the library's own PartialEq
+            if a.len() < 2 { return Some(Out::usage("args")); }
+            let (Some(Obj::Mdl(x)), Some(Obj::Mdl(y))) = (h(&a[0]).and_then(|k| ctx.handles.get(&k)), h(&a[1]).and_then(|k| ctx.handles.get(&k))) else {
+                return Some(Out::usage("handles"));
+            };
+            Out::ok(J::from(x.model_data == y.model_data))
+        }
+        "mdl.replace" => {
+            // mdl.replace h lod part <vertsfile> <indicesfile> <count,offset;count,offset...|->
+            if a.len() < 6 { return Some(Out::usage("args")); }
+            let Some(vb) = ctx.load(&a[3]) else { return Some(Out::usage("verts")) };
+            let Some(ib) = ctx.load(&a[4]) else { return Some(Out::usage("indices")) };
+            let verts = read_vertices(&vb);
+            let indices: Vec<u16> = ib.chunks_exact(2).map(|c| u16::from_le_bytes([c[0], c[1]])).collect();
+            let lod: usize = a[1].parse().unwrap_or(0);
+            let part: usize = a[2].parse().unwrap_or(0);
+            let m = mdl!(ctx, &a[0]);
+            if lod >= m.lods.len() || part >= m.lods[lod].parts.len() { return Some(Out::usage("lod/part")); }
+            let mut subs = m.lods[lod].parts[part].submeshes.clone();
+            if a[5] != "-" {
+                for (i, pair) in a[5].split(';').enumerate() {
+                    let mut it = pair.split(',');
+                    let c: u32 = it.next().and_then(|x| x.parse().ok()).unwrap_or(0);
+                    let o: u32 = it.next().and_then(|x| x.parse().ok()).unwrap_or(0);
+                    if i < subs.len() {
+                        subs[i].index_count = c;
+                        subs[i].index_offset = o;
+                    }
+                }
+            }
+            m.replace_vertices(lod, part, &verts, &indices, &subs);
+            Out::ok(summary(m))
+        }
+        "mdl.remove_shapes" => {
+            if a.is_empty() { return Some(Out::usage("args")); }
+            let m = mdl!(ctx, &a[0]);
+            m.remove_shape_meshes();
+            Out::ok(summary(m))
+        }
+        "mdl.add_shape" => {
+            // mdl.add_shape h lod shape shape_mesh part <valuesfile: records of u32 base_index + 92-byte vertex>
+            if a.len() < 6 { return Some(Out::usage("args")); }
+            let Some(vb) = ctx.load(&a[5]) else { return Some(Out::usage("values")) };
+            let mut vals = vec![];
+            for rec in vb.chunks_exact(96) {
+                let base = u32::from_le_bytes(rec[0..4].try_into().unwrap());
+                let v = read_vertices(&rec[4..96]);
+                vals.push(NewShapeValue { base_index: base, replacing_vertex: v[0] });
+            }
+            let p = |i: usize| -> usize { a[i].parse().unwrap_or(0) };
+            let m = mdl!(ctx, &a[0]);
+            m.add_shape_mesh(p(1), p(2), p(3), p(4), &vals);
+            Out::ok(summary(m))
+        }
+        "mdl.header" => {
+            // observable header facts of a file through the pub API: stack / runtime size calculators
+            if a.is_empty() { return Some(Out::usage("args")); }
+            let m = mdl!(ctx, &a[0]);
+            Out::ok(obj! {"runtime_size" => m.model_data.calculate_runtime_size(), "declarations" => m.model_data.header.vertex_declarations.len()})
+        }
+        _ => return None,
+    })
 }
